@@ -296,7 +296,9 @@ func K8() *Entry {
 		F("PlainName", Cmt(" PlainName is the name of the package to install\n package main\n")), F("lower_snake_name"), F("single"), F("WithDigits2"),
 		// lower_snake segments that end in digits or are single letters: the attribute name is the proto name itself
 		F("ipv4_addr"), F("sha256_sum", Sc(ir.Bytes)), F("s3_bucket"), F("a_b_c", Sc(ir.Int32)), F("x2_y2_z", Rep()), F("Tagged", JSON("tagged_name")), F("TaggedOmit", JSON("tagged_omit,omitempty")),
-		F("TagDash", JSON("-")), F("TagEmpty", JSON("")), F("TagDashOmit", JSON("-,omitempty")), F("TagOnlyOmit", JSON(",omitempty")), F("type"), F("range", Sc(ir.Int64)), F("tag_only_string", Sc(ir.Int64), JSON(",string")),
+		F("TagDash", JSON("-")), F("TagEmpty", JSON("")), F("TagDashOmit", JSON("-,omitempty")), F("TagOnlyOmit", JSON(",omitempty")), F("type"), F("range", Sc(ir.Int64)),
+		// real fields whose attribute is called like the placeholder of a message without fields
+		F("Active", Sc(ir.Int64)), F("tag_only_string", Sc(ir.Int64), JSON(",string")),
 		F("ID", JSON("id")), F("AWSRoleARNs", Rep()), F("DurMP", Sc(ir.Int64)), F("Overridden", JSON("tag_loses")),
 		F("ByTypeKey"), F("Child", MsgT("NamedChild")), F("Children", MsgT("NamedChild"), Rep()),
 		// json tags and overrides are taken verbatim: camelCase, acronyms, hyphens
@@ -304,7 +306,7 @@ func K8() *Entry {
 		// fields named like the synthetic fields of a map entry, next to maps of the same element type
 		F("Key"), F("Value"), F("ZoneLabels", MapOf()), F("ZoneCounts", Sc(ir.Int64), MapOf()), F("value_count", Sc(ir.Int64)),
 	)
-	child := M("NamedChild", F("InnerPlain"), F("inner_snake"), F("tier1_name"), F("v_x"), F("key", Sc(ir.Int64)), F("value", Sc(ir.Int64)), F("weights", Sc(ir.Int64), MapOf()), F("InnerTagged", JSON("inner_tag")), F("InnerByPath"), F("InnerByKey"))
+	child := M("NamedChild", F("Enabled", JSON("active,omitempty")), F("InnerPlain"), F("inner_snake"), F("tier1_name"), F("v_x"), F("key", Sc(ir.Int64)), F("value", Sc(ir.Int64)), F("weights", Sc(ir.Int64), MapOf()), F("InnerTagged", JSON("inner_tag")), F("InnerByPath"), F("InnerByKey"))
 	f := file("k8", m, child)
 	AutoComments(f)
 	c := BaseConfig("Naming")
